@@ -631,6 +631,26 @@ pub fn gen_problem(r: &mut Sm, spec: &Spec, host: Hostility) -> Problem {
             }
         }
     }
+    // Representation-dependent validity at the SO2 seam: -pi and +pi are the same configuration
+    // (distance 0) but a user's checker that looks at the raw angle may accept only one of them.
+    if matches!(host, Hostility::Plain | Hostility::GoalOverlap) && r.bool(0.2) {
+        let offs = spec.offsets();
+        for (ci, c) in spec.comps.iter().enumerate() {
+            if let CK::So2 { bounds } = &c.kind {
+                let (l, h) = bounds.unwrap_or((-PI, PI));
+                if l <= -PI && h >= PI {
+                    let idx = offs[ci];
+                    let w = r.log_range(1e-6, 0.05);
+                    let (lo, hi) = if r.bool(0.5) { (-PI, -PI + w) } else { (PI - w, PI) };
+                    if !(start[idx] >= lo && start[idx] <= hi) && !(gc[idx] >= lo && gc[idx] <= hi) {
+                        world.prims.push(Prim::Slab { idx, lo, hi, gaps: vec![] });
+                        tags.push("seam-asymmetric-slab".into());
+                    }
+                    break;
+                }
+            }
+        }
+    }
     Problem {
         spec: spec.clone(),
         world,
